@@ -277,6 +277,10 @@ func (r *detRun) onWrite(p []byte) {
 			tok += ":lit"
 			r.events = append(r.events, fmt.Sprintf("h%d", c))
 		}
+	case strings.HasSuffix(s, "}\r\n"):
+		// the payload of one literal followed by the header of the command's next literal
+		tok = fmt.Sprintf("%d:lit2", c)
+		r.events = append(r.events, fmt.Sprintf("r%d", c), fmt.Sprintf("h%d", c))
 	default:
 		tok = fmt.Sprintf("%d:tail", c)
 		r.events = append(r.events, fmt.Sprintf("r%d", c))
@@ -395,6 +399,8 @@ func detHandle(req string) string {
 					setRes(c, c13Class(cl.Fetch(imap.SeqSetNum(1), &imap.FetchOptions{UID: true}).Close()))
 				case 'L':
 					setRes(c, c13Class(cl.Login(fmt.Sprintf("u%d\nx", c), "pw").Wait()))
+				case 'M':
+					setRes(c, c13Class(cl.Login(fmt.Sprintf("u%d\nx", c), "p\nw").Wait()))
 				case 'A':
 					payload := []byte(fmt.Sprintf("Subject: m%d\r\n\r\nhello", c))
 					cmd := cl.Append("INBOX", int64(len(payload)), nil)
